@@ -259,7 +259,7 @@ func c13randF64(r *rng) uint64 {
 	}
 }
 
-var c13runes = []rune{0xe9, 0x3b1, 0x4e16, 0x1f600, 0x2028, 0xad, 0xfffd, 0x10ffff, 0x80, 0x7ff, 0x800, 0xffff, 0x10000, 0xe000, 0xd7ff, 0x85, 0xa0, 0x200b, 0xfeff, 0x378}
+var c13runes = []rune{0xb7, 0x2215, 0xe9, 0x3b1, 0x4e16, 0x1f600, 0x2028, 0xad, 0xfffd, 0x10ffff, 0x80, 0x7ff, 0x800, 0xffff, 0x10000, 0xe000, 0xd7ff, 0x85, 0xa0, 0x200b, 0xfeff, 0x378}
 
 func c13randString(r *rng) string {
 	n := 0
@@ -319,25 +319,15 @@ func c13randConst(r *rng) c13const {
 	}
 }
 
-// printable runes >= 0x80 validly encoded in the strings (Go's strconv.IsPrint: measured)
+// c13printable lists the runes >= 0x80 that the implementation prints raw inside
+// string literals.  String.Asm uses `$%+q` (ASCII-only quoting, fix of F15): none.
+// (With `$%q` it was: the validly encoded runes for which strconv.IsPrint holds.)
 func c13printable(strs ...string) []int {
-	seen := map[rune]bool{}
-	for _, s := range strs {
-		for len(s) > 0 {
-			rn, w := utf8.DecodeRuneInString(s)
-			if rn >= 0x80 && !(rn == utf8.RuneError && w == 1) && strconv.IsPrint(rn) {
-				seen[rn] = true
-			}
-			s = s[w:]
-		}
-	}
-	var out []int
-	for rn := range seen {
-		out = append(out, int(rn))
-	}
-	sort.Ints(out)
-	return out
+	return nil
 }
+
+var _ = utf8.RuneError
+var _ = sort.Ints
 
 // ---------------------------------------------------------------- sections
 
